@@ -1269,7 +1269,14 @@ fn nested_case(t: &mut Tape, mask: Mask) -> CaseResult {
         let path = styled_path(&before, &rest, style);
         sample_paths.push(path.clone());
         let segs = split(&path);
-        let (res, _remaining) = route.match_nested(&path);
+        // leptos_router 0.7.8 slices a remaining path that does not start with '/' at a wrong offset
+        // (Param/Wildcard segments after a partially matched static segment) and can panic on
+        // non-ASCII text: that is upstream behaviour, only charged to the i18n router when its own
+        // locale-prefix test produced the partial match
+        let res = std::panic::catch_unwind(std::panic::AssertUnwindSafe(|| {
+            let (res, _remaining) = route.match_nested(&path);
+            res.map(|(_, m)| (m.as_matched().to_string(), leptos_router::MatchParams::to_params(&m)))
+        }));
         obs += 1;
         // model
         let first = segs.first().cloned().unwrap_or_default();
@@ -1289,10 +1296,23 @@ fn nested_case(t: &mut Tape, mask: Mask) -> CaseResult {
                 "case": cj0,
             })
         };
+        let res = match res {
+            Ok(r) => r,
+            Err(e) => {
+                let msg = e.downcast_ref::<String>().cloned().or_else(|| e.downcast_ref::<&str>().map(|s| s.to_string())).unwrap_or_default();
+                if sp.is_some() {
+                    return Err(Failure {
+                        signature: "match-nested-partial-segment".into(),
+                        detail: detail("match_nested panicked inside leptos_router after the locale prefix matched only a part of the first segment", json!({"panic": msg})),
+                    });
+                }
+                classes.push("upstream panic in leptos_router segment matching (not charged)".into());
+                continue;
+            }
+        };
         match &res {
-            Some((_, m)) => {
-                let matched = m.as_matched().to_string();
-                let params = leptos_router::MatchParams::to_params(m);
+            Some((matched, params)) => {
+                let matched = matched.clone();
                 let actual = json!({"matched_locale_prefix": matched, "params": params.iter().map(|(k, v)| json!([k, v])).collect::<Vec<_>>()});
                 if !matched.is_empty() {
                     let lname = matched.trim_start_matches('/');
@@ -1435,6 +1455,7 @@ fn self_test(ctx: &mut Ctx) {
 
 pub fn run(mut ctx: Ctx) -> ! {
     let _ = any_spawner::Executor::init_custom_executor(DropExecutor);
+    std::panic::set_hook(Box::new(|_| {})); // panics of the code under test are caught and classified
     self_test(&mut ctx);
     let engines = engines();
     if let Some(path) = ctx.replay.clone() {
